@@ -22,7 +22,7 @@ import vlib  # noqa: E402
 def main():
     patch, prop = os.path.abspath(sys.argv[1]), sys.argv[2].upper()
     tier = sys.argv[3] if len(sys.argv) > 3 else "quick"
-    root = os.path.join(vlib.WORK, "mutiso")
+    root = os.path.join(vlib.WORK, os.environ.get("VERIF_MUTISO", "mutiso"))
     os.makedirs(root, exist_ok=True)
     lk = open(os.path.join(root, "lock"), "w")
     fcntl.flock(lk, fcntl.LOCK_EX)          # one isolated mutant run at a time (they share the scratch tree)
